@@ -15,7 +15,7 @@ NOTE = ("Sampling, not proof: holds on the schedules explored. Trusted base: the
 # id -> (level, design_ref, text, extra technique)
 P = {
  "C01": ("exploration", "§6 C01", "After every block (most generated blocks carry one message) the balance of each auction's three escrow addresses is compared, in every denomination, with what the implementation's own stored records owe (offered amount / sum of required reservations of stored bids / unreleased instalments) plus exactly the third-party deposits the simulator made and the module has not swept; per-message transfers are compared with the model. Histories include rounding-prone prices, modifications, both fixed-price denominations, foreign deposits into all escrows, crash re-execution.", ""),
- "C02": ("exploration", "§6 C02", "Per block: zero-sum of all participant/escrow balance changes plus recorded community-pool fundings, per denomination; per message: the net effect of its transfers per address and denomination equals the model's (fee in force, own reservation only, debits only from the signer); histories end with a drain phase so that every auction reaches finished/cancelled and final entitlements are compared with the model.", ""),
+ "C02": ("exploration", "§6 C02", "Per block: zero-sum of all participant/escrow balance changes plus recorded community-pool fundings, per denomination; per message: the net effect of its transfers per address and denomination equals the model's (fee in force, own reservation only, debits only from the signer); histories end with a drain phase so that every auction reaches finished/cancelled and final entitlements are compared with the model; one history in seven is a single auction with 100-200 bids.", ""),
  "C03": ("exploration", "§6 C03", "At every end time of every generated batch order book the settlement transfers are compared with the model's linear scan from the lowest bid price (capped demand per bidder, exact integer arithmetic); order books come from real message histories with dust bids, duplicate prices, caps changed between rounds.", ""),
  "C04": ("exploration", "§6 C04", "Payments (reservation minus refund) per bidder at settlement are compared with the model (uniform clearing price, ceil per matched bid) and fixed-price reservations with exact ceil/floor; awkward 18-decimal prices and tiny amounts are the default scale.", ""),
  "C05": ("exploration", "§6 C05", "From the recorded settlement transfers: total distributed <= offered, per bidder <= allow-list cap (at acceptance for each fixed-price bid, at settlement for batch) and <= requested; caps are raised/lowered between bids and rounds.", ""),
@@ -28,11 +28,11 @@ P = {
  "C12": ("exploration", "§6 C12", "Cancel attempted by auctioneer and others before/at/after the start instant, after finish, twice, with third-party deposits in the escrow: accepted iff signer is the auctioneer and the model status is waiting; full refund transfer, remainder 0, terminal auctions never change again.", ""),
  "C13": ("exploration", "§6 C13", "At every end time the model decides extend/settle on exact rationals from the previous matched count; appended end time = previous + period*24h with the period in force; number of end times <= 1+max rounds; every history is drained so each auction settles.", ""),
  "C14": ("exploration", "§6 C14", "Shadow replicas are fed the same block log; crash-before-commit and lost-commit re-execute blocks on the same replica; optimistic execution is aborted/hit: FinalizeBlock response bytes, ordered bank-call record and app hash must be identical; the trace hash of the same schedule is compared across OS processes at GOMAXPROCS 1/4/16.", "; cross-process trace-hash self-test"),
- "C15": ("exploration", "§6 C15", "At random moments (biased to settlement/extension/release blocks) the whole application state is exported, the module's genesis is validated, a fresh replica is initialised from it, compared collection by collection with the exporter and then fed the same subsequent blocks in lock-step (tx codes, ordered transfers, module state).", ""),
+ "C15": ("exploration", "§6 C15", "At random moments (biased to settlement/extension/release blocks) the whole application state is exported, the module's genesis is validated, a fresh replica is initialised from it, compared collection by collection with the exporter and then fed the same subsequent blocks in lock-step (tx codes, ordered transfers, module state); every history ends with one more export that must validate (auctions that used all 30 extended rounds are reached on purpose).", ""),
  "C16": ("exploration", "§6 C16", "After settlement matched flags and the published matched price are compared with the model's final settlement, released flags with recorded payments; every query (by id, every status/type/auction/bidder/is_matched filter combination, random page sizes) is issued through the app's ABCI Query path and must return exactly the stored objects satisfying the request.", ""),
  "C17": ("fault_enumeration", "§6 C17", "With L=1..3 recording listeners: every successful operation calls each listener exactly once, in order, with the values used (compared with the model) and before the announced record is stored; then for every hook method a history triggers and every listener position j<L the history is re-executed with listener j failing: message => tx rejected with nothing written, keeper op => error, settlement => FinalizeBlock error, listeners after j not called.", "; enumeration of (hook method x L x failing position)"),
  "C18": ("exploration", "§6 C18", "Every message type is generated valid and invalid for exactly one reason (field shape, missing auction, wrong type/status/denomination, floor/fixed price, allowance, remainder, signer, funds) in every model state, plus duplicated/reordered/forged transactions and bank failures injected inside transactions: result code 0 iff the model's predicate; for every rejected tx the per-tx KV write set (store tracer) in fundraising/bank/distribution is empty.", "; per-tx KV write sets via the store tracer"),
- "C19": ("exploration", "§6 C19", "Histories with several concurrent auctions sharing auctioneers, bidders and denominations: per-tx KV write sets must stay inside the key space and escrow/participant balances of the auction the operation names; immutable terms, bid identity, id order and counters are checked after every block; an auction that no operation names and that passes no boundary must not change; and every history is executed a second time restricted to one of its auctions (all others deleted) on a fresh replica: verdicts, record, bids, allow-list, instalments and escrow balances of the kept auction must be the same in both runs.", "; per-tx KV write sets via the store tracer; projection of the history onto one auction on a second replica"),
+ "C19": ("exploration", "§6 C19", "Histories with several concurrent auctions sharing auctioneers, bidders and denominations: per-tx KV write sets must stay inside the key space and escrow/participant balances of the auction the operation names; immutable terms, bid identity, id order and counters are checked after every block; an auction that no operation names and that passes no boundary must not change; and every history is executed a second time restricted to one of its auctions (all others deleted) on a fresh replica: verdicts, record, bids, allow-list, instalments and escrow balances of the kept auction must be the same in both runs. Derivation part (not simulation, a pure-function probe run once per process): the three escrow addresses of the ids 0..4095, around every power of two and 2^64-1 equal the documented derivation and are pairwise distinct.", "; per-tx KV write sets via the store tracer; projection of the history onto one auction on a second replica"),
  "C20": ("exploration", "§6 C20", "The default-built binary must start; the command tree is enumerated from its own help output and every message/query must be reachable; seeded histories are driven through the binary (--generate-only output is decoded, compared with what was typed, signed by the simulator and executed on the simulated chain); every query command is run by the binary against the simulated node through a request/response RPC shim and its display compared with the node's state. Boot part (not simulation, reported separately): --help of every command, and a real single-node chain initialised and started from the binary must produce blocks, answer a query and include a transaction broadcast through the command line.", "; CLI-in-the-loop with the real default-built binary"),
 }
 ALL = ["C%02d" % i for i in range(1, 21)]
